@@ -571,8 +571,23 @@ def default_platform_reload_slice(case, w, viol, inst, platform, prev_snap):
     return ok
 
 
+def _int_stage_keys(case):
+    """A case that went through JSON (replay file) has its stage indices as strings; FlowIR wants integers."""
+    def fix(section):
+        for plat in (section or {}).values():
+            if isinstance(plat, dict) and isinstance(plat.get("stages"), dict):
+                plat["stages"] = {int(k) if isinstance(k, str) and k.isdigit() else k: v
+                                  for k, v in plat["stages"].items()}
+    fix(case["flowir"].get("variables"))
+    fix(case["flowir"].get("blueprint"))
+    fix({str(i): uv for i, uv in enumerate(case.get("uservars") or [])})
+    return case
+
+
 def run_job(job, w):
     w.max_samples = 1
+    if "case" in job:
+        _int_stage_keys(job["case"])
     cases = [job["case"]] if "case" in job else [
         G.draw_case(vlib.rng(PROP, "case", i), i, job["max_k"]) for i in job["indices"]]
     for case in cases:
@@ -632,6 +647,10 @@ def main():
                        "incrementally unrolled graph are not dataflow and are tolerated (counted)",
                        "options patched with setOptionForNode are transient by documentation and not part of the workload",
                        "every referenced variable has a package default; no variable references in numeric blueprint fields",
+                       "explicitly empty options are generated for the list-valued component options only (shutdownOn, "
+                       "restartHookOn, executors.pre/post, each over a non-empty FlowIR default / blueprint layer / own base "
+                       "under override.<platform>); FlowIR merges dictionaries key by key, so an explicitly empty "
+                       "dictionary never overrides anything and there is nothing to preserve for it",
                    ])
     rp = vlib.load_replay(sys.argv)
     if rp is not None:
